@@ -163,12 +163,14 @@ impl PhysicalOperator for MorselAggregateExec {
         self.apply_narrowed_projection(&mut source);
 
         // Determine input types for aggregates
-        let plan_schema =
-            crate::planner::PlanSchema::from_qualified_arrow(source.schema().as_ref());
+        let source_schema = source.schema();
+        let plan_schema = crate::planner::PlanSchema::from_qualified_arrow(source_schema.as_ref());
         let input_types: Vec<DataType> = self
             .aggregates
             .iter()
-            .map(|a| a.input.data_type(&plan_schema).unwrap_or(DataType::Float64))
+            .map(|a| {
+                crate::physical::morsel_agg::agg_input_type(&a.input, &plan_schema, &source_schema)
+            })
             .collect();
 
         // One worker per row group at most: after pruning, a selective scan can
@@ -435,7 +437,11 @@ impl MorselAggregateExec {
                     e => kinds.push((DenseAgg::Count, Some(e.clone()))),
                 },
                 AggregateFunction::Sum | AggregateFunction::Avg => {
-                    let dt = a.input.data_type(&plan_schema).unwrap_or(DataType::Float64);
+                    let dt = crate::physical::morsel_agg::agg_input_type(
+                        &a.input,
+                        &plan_schema,
+                        &self.input_schema,
+                    );
                     let k = match (&a.func, &dt) {
                         (AggregateFunction::Sum, DataType::Float64) => DenseAgg::SumF64,
                         (AggregateFunction::Sum, DataType::Int64) => DenseAgg::SumI64,
